@@ -1,6 +1,7 @@
 """C16 — AsyncWriter delivers whole frames in order under short writes and cancel+sync."""
 import itertools, zlib
 from verifkit.runner import Stream
+from verifkit import runner
 from verifkit import gen
 from verifkit import frameio as F
 
@@ -13,6 +14,7 @@ sync_idle_noop write_zero_error write_zero_then_sync_resumes transient_error_kee
 encode_failure_or_too_long_writes_nothing offset_le_buffer
 undisciplined_stale_state""".split()] + ["Minicbor.Frame.syncLoop_spec"]
 PACKAGES = ["hio"]
+DEBUG_TWINS = True
 RULE = ("awrite scenarios on the real AsyncWriter over a scripted futures_io::AsyncWrite, futures polled by hand with a no-op waker: value "
         "sequences with <=10 frame bytes x ALL compositions into accepted sizes x every placement of <=2 Pendings x every decision at each "
         "Pending (keep polling | drop then sync, the sync itself droppable); one error event (Other / Interrupted / accept-0) at every "
